@@ -69,17 +69,16 @@ def ppCheck (d : List (Int × Model.PartProd.St × List Model.PartProd.Action)) 
   Every broker worker of the scenario is replayed through `Model.BrokerProd.step`: each input of its run loop
   (bp.recv, bp.handover, bp.resp … bp.resp.end) is fed to the model and the actions the real worker takes until
   its next input (wg.done.syn, bp.bounce, bp.add, retry, ret.err, ret.succ, bp.drop, bp.closing) must equal the
-  model's.  What the hooks do not say is reconstructed:
-    * syn / fin of a marker token: from the partition producer's announcement (wg.add.syn / wg.add.fin) - per
-      partition, announcements and arrivals are in the same order (one sender, unbuffered channel);
-    * which worker an event belongs to: token events by the worker that took the token in (bp.recv), tokens of a
-      partition go to the worker that acknowledged the partition's last syn; events without a token (bp.handover,
-      bp.resp.end, bp.verdict, bp.drop, bp.closing) and the question whether a syn reached the latest worker of
-      its broker id or a newly created one are resolved by keeping every consistent attribution alive (`World`s)
-      and rejecting only when none is left;
-    * (more than 64 consistent attributions: the scenario's broker workers are not checked any further)
-    * the parameters of an input that are visible only in the reaction (wouldOverflow, the verdicts and the map
-      iteration orders): the check of an input is deferred to the worker's next input (`settle`).
+  model's.
+    * Every bp.* event carries the worker tag `brokerID*4096 + serial` (serial unique per brokerProducer), so the
+      attribution of events to workers is exact; retry / ret.err / ret.succ carry no tag and go to the worker
+      that took the token in and has not let it go yet.
+    * bp.recv carries `retries*8 + flags` (syn = 1, fin = 2): the token kind is read from there.
+    * The parameters of an input that are visible only in the reaction (wouldOverflow, the verdicts and the map
+      iteration orders) are read off the reaction: the check of an input is deferred to the worker's next input
+      (`settle`); at the end of the trace a prefix of the model's reaction suffices.
+    * An event with a tag no worker of this scenario has (a producer of an earlier scenario of the same process
+      that was closed while an empty produce set was still at its bridge reports the answer late) is ignored.
   Idempotent scenarios are not replayed (retryBatch hands sets to other workers' bridges). -/
 namespace BPW
 open Model.BrokerProd
@@ -92,28 +91,21 @@ inductive Pend
   | resp                          -- bp.resp.end seen; verdicts and reactions are being collected
 
 structure BW where
-  key : Nat
+  key : Int                       -- worker tag: broker id * 4096 + serial
   broker : Int
   st : Model.BrokerProd.St := {}
   pend : Pend := .idle
   obs : List Action := []         -- observed since the pending input, newest first
   verd : List (Int × Int) := []   -- bp.verdict (partition, code), newest first
-  closedAt : Option Nat := none   -- clock of the first event of this worker after its abandonBrokerConnection
 
 structure World where
   ws : List BW := []
-  att : List (Int × Nat) := []        -- partition → worker that took the partition's last syn
-  holder : List (Int × Nat) := []     -- token id → worker holding it
-  marks : List (Int × Kind × Nat) := []  -- announced markers (partition, kind, clock of the partition producer's previous event), oldest first
-  known : List (Int × Kind) := []     -- marker id → kind
-  next : Nat := 0
-  clock : Nat := 0                    -- number of events seen
-  lastPP : List (Int × Nat) := []     -- partition → clock of the last event of its partition producer
+  holder : List (Int × Int) := []     -- token id → tag of the worker holding it
 
 def assocSet {α : Type} (l : List (Int × α)) (k : Int) (v : α) : List (Int × α) := (k, v) :: l.filter (fun x => x.1 != k)
 def assocDel {α : Type} (l : List (Int × α)) (k : Int) : List (Int × α) := l.filter (fun x => x.1 != k)
 
-def getW (wd : World) (k : Nat) : Option BW := wd.ws.find? (fun x => x.key == k)
+def getW (wd : World) (k : Int) : Option BW := wd.ws.find? (fun x => x.key == k)
 def putW (wd : World) (w : BW) : World := { wd with ws := wd.ws.map (fun x => if x.key == w.key then w else x) }
 def holderOf (wd : World) (id : Int) : Option BW := (wd.holder.lookup id).bind (getW wd)
 
@@ -129,7 +121,7 @@ def actId : Action → Option Int
   | .refuse i | .requeue i _ _ _ | .expire i _ _ | .add i _ | .succ i _ | .fail i _ => some i
   | _ => none
 
-def name (w : BW) : String := s!"broker worker {w.broker}#{w.key}"
+def name (w : BW) : String := s!"broker worker {w.broker}#{w.key % 4096}"
 
 /-- one-line rendering (a rejection is one line of the protocol) -/
 def showAct : Action → String
@@ -197,188 +189,122 @@ def settle (max : Nat) (final : Bool) (w : BW) : Except String BW :=
           let x := Model.BrokerProd.step max w.st (.resp r still)
           cmp final w x.1 (norm x.2) obs
 
-def pristine (max : Nat) (w : BW) : Bool :=
-  match settle max false w with
-  | .ok w' => !w'.st.closing && w'.st.buffer.isEmpty && w'.st.sets.isEmpty && w'.st.wait.isNone
-  | .error _ => false
+/-- push an observed action to a worker -/
+def see (wd : World) (w : BW) (act : Action) : World := putW wd { w with obs := act :: w.obs }
 
-/-- push an observed action to the worker that holds token `id`; `leave` = the token is gone afterwards -/
-def observe (wd : World) (id : Int) (act : Action) (leave must : Bool) : List (Except String World) :=
+/-- an action reported without a worker tag (retry, ret.err, ret.succ): it belongs to the worker holding the token;
+    the token is gone afterwards.  No holder: the event is not a broker worker's (dispatcher, partition producer). -/
+def leave (wd : World) (id : Int) (act : Action) : Except String World :=
   match holderOf wd id with
-  | none => if must then [.error s!"broker worker event {showAct act} for a token no worker holds"] else [.ok wd]
+  | none => .ok wd
+  | some w => .ok { see wd w act with holder := assocDel wd.holder id }
+
+/-- an action reported with the worker tag -/
+def tagged (wd : World) (tag id : Int) (act : Action) : Except String World :=
+  match getW wd tag with
+  | none => .ok wd                       -- stray
   | some w =>
-    let ca : Option Nat := if w.closedAt.isNone && w.obs.contains .closing then some wd.clock else w.closedAt
-    let wd' := putW wd { w with obs := act :: w.obs, closedAt := ca }
-    [.ok (if leave then { wd' with holder := assocDel wd'.holder id } else wd')]
+    if (wd.holder.lookup id) != some tag then .error s!"{name w}: {showAct act} for token {id}, which it does not hold"
+    else .ok (see wd w act)
 
-def orErr (l : List (Except String World)) (m : String) : List (Except String World) :=
-  if l.isEmpty then [.error m] else l
-
-/-- no worker of this scenario fits: the event is a stray one (see bp.resp.end below) and is ignored -/
-def orStray (l : List (Except String World)) (wd : World) : List (Except String World) :=
-  if l.isEmpty then [.ok wd] else l
-
-/-- one hook event in one world: every consistent continuation (or an error) -/
-def wstep (max : Nat) (wd : World) (kind : String) (id a b p : Int) : List (Except String World) :=
+/-- one hook event -/
+def wstep (max : Nat) (wd : World) (kind : String) (id a b p : Int) : Except String World :=
   match kind with
-  | "wg.add.syn" => [.ok { wd with marks := wd.marks ++ [(a, Kind.syn, (wd.lastPP.lookup a).getD 0)] }]
-  | "wg.add.fin" => [.ok { wd with marks := wd.marks ++ [(a, Kind.fin, 0)] }]
   | "bp.recv" =>
-    let kd : Except String (Kind × Nat × World) :=
-      if id > 0 then .ok (.data, 0, wd)
-      else match wd.known.lookup id with
-        | some k => .ok (k, 0, wd)
-        | none =>
-          match wd.marks.find? (fun x => x.1 == p) with
-          | some x => .ok (x.2.1, x.2.2, { wd with marks := wd.marks.eraseP (fun x => x.1 == p), known := (id, x.2.1) :: wd.known })
-          | none => .error s!"bp.recv of marker {id} for partition {p} that no partition producer announced"
-    match kd with
-    | .error m => [.error m]
-    | .ok (k, since, wd) =>
-      let tok : Tok := { id := id, part := p, retries := a.toNat, kind := k }
-      let deliver (w : BW) (wd : World) : Except String World :=
-        match settle max false w with
-        | .error m => .error m
-        | .ok w' =>
-          let ca : Option Nat := if w'.closedAt.isNone && w'.st.closing then some wd.clock else w'.closedAt
-          let wd := putW wd { w' with pend := Pend.recvTok tok, closedAt := ca }
-          .ok { wd with holder := assocSet wd.holder id w.key,
-                        att := if k == .syn then assocSet wd.att p w.key else wd.att }
-      if k == .syn then
-        let fresh : BW := { key := wd.next, broker := b }
-        let wdNew : World := { wd with ws := wd.ws ++ [fresh], next := wd.next + 1 }
-        -- the partition producer took its worker when it announced the syn: any worker of this broker id that
-        -- exists by now, or one that this world has not seen yet.  A worker in the initial state (up to
-        -- currentRetries, which the syn resets for this partition) behaves like a new one: one representative.
-        -- Not a candidate: a worker that had finished abandonBrokerConnection (it was seen acting after its
-        -- bp.closing) before the partition producer's last event preceding the announcement - it was no longer
-        -- registered when the partition producer asked for a worker.
-        let cands := (wd.ws.filter (fun w => w.broker == b &&
-                        !(match w.closedAt with | some j => decide (j < since) | none => false))).reverse
-        let used := cands.filter (fun w => !pristine max w)
-        let blank := match cands.find? (pristine max) with
-          | some l => deliver l wd
-          | none => deliver fresh wdNew
-        (used.filter (fun w => !w.st.closing)).map (fun w => deliver w wd) ++ [blank] ++
-          (used.filter (fun w => w.st.closing)).map (fun w => deliver w wd)
-      else
-        match (wd.att.lookup p).bind (getW wd) with
-        | none => [.error s!"token {id} of partition {p} at broker {b}, but the partition is attached to no worker"]
-        | some w =>
-          if w.broker != b then [.error s!"token {id} of partition {p} at broker {b}, but the partition is attached to {name w}"]
-          else [deliver w wd]
-  | "wg.done.syn" => observe wd id (.ackSyn a) true true
-  | "bp.bounce" => observe wd id (.refuse id) false true
-  | "bp.add" => observe wd id (.add id p) false true
-  | "retry" => observe wd id (.requeue id p a.toNat ((b.toNat / 2) % 2 == 1)) true false
-  | "ret.err" => observe wd id (.fail id p) true false
-  | "ret.succ" => observe wd id (.succ id p) true false
+    let fl := a.toNat % 8
+    let k : Kind := if fl % 2 == 1 then .syn else if (fl / 2) % 2 == 1 then .fin else .data
+    let tok : Tok := { id := id, part := p, retries := a.toNat / 8, kind := k }
+    let (w, wd) := match getW wd b with
+      | some w => (w, wd)
+      | none => (({ key := b, broker := b / 4096 } : BW), { wd with ws := wd.ws ++ [{ key := b, broker := b / 4096 }] })
+    match settle max false w with
+    | .error m => .error m
+    | .ok w' => .ok { putW wd { w' with pend := Pend.recvTok tok } with holder := assocSet wd.holder id b }
+  | "wg.done.syn" =>
+    match tagged wd b id (.ackSyn a) with
+    | .ok wd' => .ok { wd' with holder := assocDel wd'.holder id }
+    | e => e
+  | "bp.bounce" => tagged wd b id (.refuse id)
+  | "bp.add" => tagged wd b id (.add id p)
+  | "retry" => leave wd id (.requeue id p a.toNat ((b.toNat / 2) % 2 == 1))
+  | "ret.err" => leave wd id (.fail id p)
+  | "ret.succ" => leave wd id (.succ id p)
   | "bp.handover" =>
-    -- (workers with something in the buffer first: the order of the alternatives is the order of plausibility)
-    orErr (((wd.ws.filter (fun w => w.broker == a && !w.st.buffer.isEmpty)) ++
-            (wd.ws.filter (fun w => w.broker == a && w.st.buffer.isEmpty))).map fun w =>
+    match getW wd a with
+    | none => .ok wd
+    | some w =>
       match settle max false w with
       | .error m => .error m
       | .ok w' =>
         if (b == 2) != w'.st.wait.isSome then .error s!"{name w}: bp.handover site {b} does not fit waitForSpace state"
         else
           let r := Model.BrokerProd.step max w'.st .handover
-          if r.2.contains .disabled then .error s!"{name w}: handover while a set is in flight"
-          else .ok (putW wd { w' with st := r.1, pend := .eager (norm r.2) }))
-      s!"bp.handover at broker {a} without a worker"
+          if r.2.contains .disabled then .error s!"{name w}: handover while a set is in flight, or of an empty buffer with a fresh `output`"
+          else .ok (putW wd { w' with st := r.1, pend := .eager (norm r.2) })
   | "bp.resp" =>
-    match holderOf wd id with
-    | none => [.error s!"bp.resp lists token {id} that no worker holds"]
+    match getW wd a with
+    | none => .ok wd
     | some w =>
-      if w.broker != a then [.error s!"bp.resp at broker {a} lists token {id} held by {name w}"]
+      if (wd.holder.lookup id) != some a then .error s!"{name w}: bp.resp lists token {id}, which it does not hold"
       else match w.pend with
-        | .respList ids => [.ok (putW wd { w with pend := .respList (ids ++ [id]) })]
+        | .respList ids => .ok (putW wd { w with pend := .respList (ids ++ [id]) })
         | _ =>
           match settle max false w with
-          | .error m => [.error m]
-          | .ok w' => [.ok (putW wd { w' with pend := .respList [id] })]
+          | .error m => .error m
+          | .ok w' => .ok (putW wd { w' with pend := .respList [id] })
   | "bp.resp.end" =>
-    -- the listed set must be the set in flight (an empty set has no bp.resp events at all).
-    -- When no worker has a listed or an empty set in flight the event is ignored: the harness runs the scenarios
-    -- of a process one after the other with one global hook sink, and a producer that was closed while an EMPTY
-    -- produce set was still at its bridge (the stale-`output` hand-over) reports the answer - bp.answered.end,
-    -- bp.resp.end, bp.closing - into the NEXT scenario's trace.
-    orStray ((wd.ws.filter (fun w => w.broker == a)).filterMap fun w =>
+    -- the listed set must be the set in flight (an empty set has no bp.resp events at all)
+    match getW wd a with
+    | none => .ok wd
+    | some w =>
       match w.pend with
       | .respList ids =>
         match w.st.sets with
         | sent :: _ =>
           let ord := ids.filterMap (fun i => (sent.find? (fun t => t.id == i)).map (·.part))
-          if (arrange (ord ++ partsOf sent) sent).map (·.id) == ids then some (.ok (putW wd { w with pend := .resp, obs := [], verd := [] }))
-          else some (.error s!"{name w}: response for {showInts ids}, but the set in flight is {showInts (sent.map (·.id))}")
-        | [] => some (.error s!"{name w}: response without a set in flight")
-      | .resp => none
+          if (arrange (ord ++ partsOf sent) sent).map (·.id) == ids then .ok (putW wd { w with pend := .resp, obs := [], verd := [] })
+          else .error s!"{name w}: response for {showInts ids}, but the set in flight is {showInts (sent.map (·.id))}"
+        | [] => .error s!"{name w}: response without a set in flight"
       | _ =>
         match settle max false w with
+        | .error m => .error m
         | .ok w' => match w'.st.sets with
-          | [] :: _ => some (.ok (putW wd { w' with pend := .resp, obs := [], verd := [] }))
-          | _ => none
-        | .error _ => none)
-      wd
+          | [] :: _ => .ok (putW wd { w' with pend := .resp, obs := [], verd := [] })
+          | sent :: _ => .error s!"{name w}: response without bp.resp events, but the set in flight is {showInts (sent.map (·.id))}"
+          | [] => .error s!"{name w}: response without a set in flight"
   | "bp.verdict" =>
-    orErr ((wd.ws.filter (fun w => (match w.pend, w.st.sets with
-        | .resp, sent :: _ => (partsOf sent).contains a && (w.verd.lookup a).isNone
-        | _, _ => false))).map fun w => .ok (putW wd { w with verd := (a, b) :: w.verd }))
-      s!"bp.verdict for partition {a} fits no worker that is handling a response"
+    match getW wd b with
+    | none => .ok wd
+    | some w =>
+      match w.pend, w.st.sets with
+      | .resp, sent :: _ =>
+        if !(partsOf sent).contains p then .error s!"{name w}: verdict for partition {p}, which is not in the answered set"
+        else if (w.verd.lookup p).isSome then .error s!"{name w}: second verdict for partition {p}"
+        else .ok (putW wd { w with verd := (p, a) :: w.verd })
+      | _, _ => .error s!"{name w}: bp.verdict outside response handling"
   | "bp.drop" =>
-    orErr ((wd.ws.filter (fun w => w.broker == b && (match w.pend with | .resp => true | _ => false)
-        && (w.verd.lookup a).isSome)).map fun w => .ok (putW wd { w with obs := .drop a :: w.obs }))
-      s!"bp.drop of partition {a} at broker {b} fits no worker that is handling a response"
+    match getW wd b with
+    | none => .ok wd
+    | some w =>
+      match w.pend with
+      | .resp => .ok (see wd w (.drop a))
+      | _ => .error s!"{name w}: bp.drop outside response handling"
   | "bp.closing" =>
-    orStray ((wd.ws.filter (fun w => w.broker == a && (match w.pend with | .resp => true | _ => false)
-        && w.obs.isEmpty && w.verd.isEmpty)).map fun w => .ok (putW wd { w with obs := [.closing] }))
-      wd
-  | _ => [.ok wd]
+    match getW wd a with
+    | none => .ok wd
+    | some w =>
+      match w.pend with
+      | .resp => if w.obs.isEmpty && w.verd.isEmpty then .ok (see wd w .closing) else .error s!"{name w}: bp.closing after other reactions to the response"
+      | _ => .error s!"{name w}: bp.closing outside response handling"
+  | _ => .ok wd
+
+def bpCheck (max : Nat) (wd : World) (kind : String) (id a b p : Int) : Except String World := wstep max wd kind id a b p
 
 /-- end of the trace: every pending input must be consistent with a prefix of the model's reaction -/
-def wend (max : Nat) (wd : World) : Except String World :=
+def bpEnd (max : Nat) (wd : World) : Except String Unit :=
   match wd.ws.filterMap (fun w => match settle max true w with | .error m => some m | .ok _ => none) with
   | m :: _ => .error m
-  | [] => .ok wd
-
-def successes (l : List (Except String World)) : List World :=
-  l.filterMap fun | .ok w => some w | .error _ => none
-
-def firstError (l : List (Except String World)) : String :=
-  match l.filterMap (fun | .error m => some m | .ok _ => none) with
-  | m :: _ => m
-  | [] => "no consistent attribution"
-
-def worldCap : Nat := 64
-
-/-- advance the clock; remember when each partition producer was last seen -/
-def tick (wd : World) (kind : String) (a p : Int) : World :=
-  let pp : Option Int :=
-    if kind == "wg.add.syn" || kind == "wg.add.fin" then some a
-    else if kind == "pp.recv" || kind == "pp.buf" || kind == "pp.fwd" || kind == "pp.fail" || kind == "pp.abandon"
-         || kind == "pp.seq" || kind == "wg.done.fin" then some p
-    else none
-  match pp with
-  | some q => { wd with clock := wd.clock + 1, lastPP := assocSet wd.lastPP q wd.clock }
-  | none => { wd with clock := wd.clock + 1 }
-
-/-- all worlds, one event.  `.ok []` = too many attributions are consistent: the broker workers of this scenario
-    are not checked any further (never a rejection). -/
-def bpCheck (max : Nat) (wds : List World) (kind : String) (id a b p : Int) : Except String (List World) :=
-  if wds.isEmpty then .ok []
-  else
-    let r := wds.flatMap (fun wd => (wstep max wd kind id a b p).map (fun x => x.map (fun w => tick w kind a p)))
-    match successes r with
-    | [] => .error (firstError r)
-    | l => if l.length > worldCap then .ok [] else .ok l
-
-def bpEnd (max : Nat) (wds : List World) : Except String Unit :=
-  if wds.isEmpty then .ok ()
-  else
-    let r := wds.map (wend max)
-    match successes r with
-    | [] => .error (firstError r)
-    | _ => .ok ()
+  | [] => .ok ()
 
 end BPW
 
@@ -389,7 +315,7 @@ structure DS where
   pps : List (Int × Model.PartProd.St × List Model.PartProd.Action) := []  -- partition → partition-producer state, expected actions
   rmax : Nat := 0                  -- Producer.Retry.Max of the scenario
   bpOn : Bool := false             -- broker workers are replayed (not idempotent)
-  bws : List BPW.World := [{}]     -- consistent attributions of the events to broker workers
+  bws : BPW.World := {}            -- the broker workers of the scenario
 
 def showVerdict : Model.IdemBroker.Verdict → String
   | .appended b => s!"app {b}"
@@ -425,7 +351,7 @@ def step (d : DS) (t : List String) : DS × String :=
   match t with
   | ["reset", rm, ic, idem] =>
     ({ st := init { retryMax := nat! rm, icepts := nat! ic, idem := idem = "1" }, failed := false, brokers := [], pps := [],
-       rmax := nat! rm, bpOn := idem != "1", bws := [{}] }, "ok")
+       rmax := nat! rm, bpOn := idem != "1", bws := {} }, "ok")
   | ["bb", p, epoch, firstSeq, payloads] =>
     -- one batch arriving at the leader of partition p (simulated cluster ↔ Model.IdemBroker.arrive)
     let st := getB d.brokers (int! p)
@@ -436,7 +362,16 @@ def step (d : DS) (t : List String) : DS × String :=
     match toEv kind (int! id) (int! a) with
     | none => ({ d with failed := true }, s!"reject: unknown event kind {kind}")
     | some e =>
-      match Model.Producer.step d.st e with
+      -- stamp bookkeeping events that ride on the same hook line (C05 rules R1/R2 of Model.Producer)
+      let extra : List Ev :=
+        if kind = "pp.seq" then [.stamp (int! id) (int! b) (int! a)]
+        else if kind = "bp.sent.stamp" then (if int! a ≥ 0 then [.setStamp (int! a) (int! b)] else [])  -- epoch −1: not idempotent
+        else if kind = "bp.sent" then [.sent (int! id) (int! b)]
+        else if kind = "bp.sent.end" then [.sentEnd]
+        else if kind = "retry" then [.reentry (int! id) false]
+        else if kind = "retrybatch" then [.reentry (int! id) true]
+        else []
+      match (e :: extra).foldlM (fun s ev => Model.Producer.step s ev) d.st with
       | .error m => ({ d with failed := true }, s!"reject: {m}")
       | .ok s' =>
         match ppCheck d.pps kind (int! id) (int! a) (int! b) (int! p) with
